@@ -32,6 +32,11 @@ func checkC04(c *Ctx) {
 	c.Rule("R4.10", "combined syncers keep every sink they are given, in order; nothing points into a pooled object after its release", 2)
 	cKeepsAll(c, "R4.10", c.Func(CorePath, "NewMultiWriteSyncer"), "zapcore.NewMultiWriteSyncer", "ret(cores[0:0])")
 	c8UseAfterRelease(c, "R4.10", c8ReleaseFns(c))
+	c.Rule("R4.12", "zapcore.Lock leaves only its own *lockedWriteSyncer unwrapped: anything else - also a sink that merely has Lock/Unlock methods of its own - gets the mutex that serialises whole-line writes", 2)
+	c.As(map[string]string{"R13.3": "R4.12"}, func() {
+		c13WrapOrKeep(c, c.Func(CorePath, "Lock"), c.Named(CorePath, "lockedWriteSyncer"), "ws", "*go.uber.org/zap/zapcore.lockedWriteSyncer",
+			"no-double-wrap", "wraps-argument", "an already locked syncer is returned as it is; anything else is wrapped in a fresh *lockedWriteSyncer whose ws is the argument")
+	})
 	c.Rule("R4.11", "derived slog handlers never share a slice tail with their parent (a sibling derived later would overwrite the group names of entries being logged)", 0)
 	for _, m := range []string{"WithAttrs", "WithGroup"} {
 		if fn := c.Method(SlogPath, "Handler", m); c.Anchor("R4.11", "zapslog.Handler."+m, fn != nil) {
